@@ -14,7 +14,8 @@ cannot observe remote input lengths as indices.  `debug_assert!` expansions are 
 import re
 
 UNWRAP_RX = re.compile(r"(option::Option|result::Result)(<.*>)?::(unwrap|expect|unwrap_err|expect_err)$")
-INDEX_RX = re.compile(r"ops::Index(Mut)?(<.*>)?>?::index(_mut)?$|SliceIndex(<.*>)?>?::(index|index_mut)$")
+INDEX_RX = re.compile(r"ops::Index(Mut)?(<.*>)?>?::index(_mut)?$|SliceIndex(<.*>)?>?::(index|index_mut)$|"
+                      r"(core|std)::(slice::index|array|str::traits)::(<impl .*>::)?index(_mut)?$")
 PRECOND_RX = re.compile(
     r"slice::(<impl \[T\]>::)?(split_at|split_at_mut|copy_from_slice|clone_from_slice|copy_within|swap|chunks|chunks_exact|windows|rotate_left|rotate_right|split_first_chunk)$|"
     r"(bytes::)?(BytesMut|Bytes)::(split_to|split_off|advance|slice|truncate_front)$|bytes::Buf::(advance|copy_to_slice|copy_to_bytes|get_u8|get_u16|get_u32|get_u64|split_to)$|buf::Buf::\w+$|"
